@@ -5,7 +5,7 @@ from spec import instructions as SI
 from ..bits import BV, Aff, lit
 from ..interp import State, Unsupported
 from ..values import UNIT, Array, Enum, Opaque, Ptr, Ref, Struct
-from .common import asm_not_pure, U64, adt, arg_obj, bv, eval_value, fn_site, inner, same, sl
+from .common import dtp_layout, asm_not_pure, U64, adt, arg_obj, bv, eval_value, fn_site, inner, same, sl
 
 LEVEL = 'proof'
 G = 'structures::gdt::GlobalDescriptorTable::<MAX>::'
@@ -54,6 +54,7 @@ def run(chk):
         chk.guard('gdt', 'MAX=%d' % MAX, lambda MAX=MAX: capacity(chk, MAX))
     chk.guard('gdt', 'capacity assertions', lambda: bad_capacity(chk))
     chk.guard('gdt', 'entry value and default constructors', lambda: entry_and_defaults(chk))
+    chk.guard('layout', 'lgdt operand', lambda: dtp_layout(chk))
     chk.guard('asm-options', 'lgdt', lambda: asm_not_pure(chk, chk.I, 'asm-options', ['src/instructions/tables.rs'], 5))
     chk.floor('obligations', len(chk.obs), 146)
 
